@@ -48,3 +48,10 @@ claim(
     "Trusted: datetime/timedelta arithmetic is exact integer microsecond arithmetic; dict equality. The normal-form consequences (no two consecutive outputs mergeable, idempotence, coverage) follow on paper from MERGE+FOLD and are not machine-checked.",
     "exhaustive CFG path enumeration + affine canonicalisation of path literals and assignments (constant propagation), fold-shape matching",
 )
+claim(
+    "C01",
+    "proof",
+    "'The store owns its copy' decided for all inputs by an access-path points-to / ownership analysis of all 13 interface methods x 3 backends: no mutable object reachable from a parameter stays reachable from the store (OWN-IN) and nothing returned shares an object with the store (OWN-OUT). The first sentence is claimed only through necessary conditions: the SQL backends' encode/decode tables and scale constants agree at every write and read site (CODEC), ids are engine-allocated unique keys / max+1 per bucket, Bucket.insert reaches exactly one backend write per path.",
+    "Not decided: equality of instants to the millisecond and durations to the microsecond for 1970..2100 (float*1e6, INTEGER affinity, DECIMAL text, julianday) - numeric, not visible in code shape. Trusted: deepcopy yields a disjoint graph; json/SQLite hold no Python references.",
+    "flow-sensitive access-path points-to / escape analysis with context-sensitive inlining; writer/reader table agreement over the embedded-SQL model",
+)
